@@ -31,6 +31,17 @@ pub fn value_to_sexp(v: &FieldValue) -> Sexp {
     }
 }
 
+/// Like `value_to_sexp`, but `-0.0` is written `(f -0)` (both sides read it as key 0; the
+/// implementation side really gets a negative zero). Use it when building REQUESTS whose point is
+/// the comparison of values; answers always use the canonical `value_to_sexp`.
+pub fn value_to_sexp_exact(v: &FieldValue) -> Sexp {
+    match v {
+        FieldValue::Float64(f) if *f == 0.0 && f.is_sign_negative() => Sexp::call("f", vec![Sexp::atom("-0")]),
+        FieldValue::List(l) => Sexp::call("l", l.iter().map(value_to_sexp_exact).collect()),
+        _ => value_to_sexp(v),
+    }
+}
+
 pub fn sexp_to_value(s: &Sexp) -> Option<FieldValue> {
     if s.as_atom() == Some("n") {
         return Some(FieldValue::Null);
@@ -39,7 +50,10 @@ pub fn sexp_to_value(s: &Sexp) -> Option<FieldValue> {
     match (h, args) {
         ("i", [x]) => Some(FieldValue::Int64(x.as_atom()?.parse().ok()?)),
         ("u", [x]) => Some(FieldValue::Uint64(x.as_atom()?.parse().ok()?)),
-        ("f", [x]) => Some(FieldValue::Float64(float_from_key(x.as_atom()?.parse().ok()?))),
+        ("f", [x]) => {
+            let a = x.as_atom()?;
+            if a == "-0" { Some(FieldValue::Float64(-0.0)) } else { Some(FieldValue::Float64(float_from_key(a.parse().ok()?))) }
+        }
         ("s", [x]) => Some(FieldValue::String(Arc::from(String::from_utf8(unhex(x.as_atom()?)?).ok()?))),
         ("e", [x]) => Some(FieldValue::Enum(Arc::from(String::from_utf8(unhex(x.as_atom()?)?).ok()?))),
         ("b", [x]) => Some(FieldValue::Boolean(x.as_atom()? == "1")),
